@@ -37,6 +37,9 @@ def run(ctx, rep):
     effects_confined(F, rep)
     index_dispatch(F, rep)
     values_not_views(F, rep)
+    # what an assignment instruction writes into a list / map slot is a value, never a view of another slot (shared rule with C08)
+    from props import C08 as _c08
+    _c08.no_view_stored(F, rep, ctx, rule="C13.no-view-stored")
     if _casts is not None:
         _casts.run_c13(F, rep)
 
